@@ -211,8 +211,11 @@ fn lookup_points(g: &mut Gen) -> Vec<i128> {
     v.push(g.rng.range(TS_MIN, TS_MAX));
     v
 }
-fn push_hostile(g: &mut Gen, bytes: Vec<u8>) {
-    let ts = lookup_points(g);
+fn push_hostile(g: &mut Gen, bytes: Vec<u8>) { push_hostile_at(g, bytes, &[]) }
+/// `extra`: instants worth looking up in this particular file (the transition times of the file a mutation started from)
+fn push_hostile_at(g: &mut Gen, bytes: Vec<u8>, extra: &[i128]) {
+    let mut ts = lookup_points(g);
+    for &t in extra.iter().take(12) { ts.push(t); ts.push(t - 1); ts.push(t + 1); }
     let mut ints = vec![ts.len() as i128];
     ints.extend(ts.iter());
     g.push(true, Input::with_strs("tz_lookup", ints, vec![bytes_to_str(&bytes)]));
@@ -255,7 +258,12 @@ pub fn gen_c19(g: &mut Gen, tier: &str) {
                 if let Some(p) = good.windows(4).skip(4).position(|w| w == b"TZif").map(|p| p + 4).or(Some(0)) {
                     let tc = u32::from_be_bytes(good[p + 32..p + 36].try_into().unwrap()) as usize;
                     let ts = if p == 0 && ast.version == 1 { 4 } else { 8 };
-                    if tc > 0 { let off = p + 44 + tc * ts + (g.rng.next() as usize) % tc; let mut b = good.clone(); if off < b.len() { b[off] = *g.rng.pick(&[0u8, 1, 5, 6, 7, 127, 128, 255]); } push_hostile(g, b); }
+                    if tc > 0 { let off = p + 44 + tc * ts + (g.rng.next() as usize) % tc; let mut b = good.clone();
+                                // incl. exactly the number of types (one past the last valid index) and that number +- 1
+                                let nty = ast.types.len() as u8;
+                                if off < b.len() { b[off] = *g.rng.pick(&[0u8, 1, 5, 6, 7, 127, 128, 255, nty, nty, nty.wrapping_sub(1), nty.wrapping_add(1)]); }
+                                let at: Vec<i128> = ast.trans.iter().map(|t| t.0).collect();
+                                push_hostile_at(g, b, &at); }
                     else { push_hostile(g, good.clone()); }
                 }
             }
